@@ -15,10 +15,11 @@ All statements are about the functions the model driver executes (`Pun.Hier.eval
 * `ivl_dist_shift`, `dist_ivl_shift`, `ivl_dist_scale`: interval ± precise distribution is the quantile
   list shifted by the interval, interval × positive distribution is it scaled;
 * `evalOp_route`: the dispatch graph as a finite table over the 5 × 5 kinds;
-* `fwd_agrees`, `refl_add_agrees`, `refl_sub_agrees`: the mixed expression equals the expression with
-  every operand converted first.  The full statement is `C07RouteStatement`; what is proved is
-  `route_agrees_partial` (missing: reflected product / quotient `Interval * P`, `Interval / P`, number
-  operands, dependency `i` in the reflected sum — those are covered by the tie and the oracle only).
+* `fwd_agrees`, `refl_add_agrees`, `refl_sub_agrees`, `num_add_sub_agrees`: the mixed expression equals
+  the expression with every operand converted first.  The full statement is `C07RouteStatement`; what
+  is proved is `route_agrees_partial` (missing: reflected product / quotient `Interval * P`,
+  `Interval / P`, products / quotients with a number, dependency `i` in the reflected sums — those are
+  covered by the tie and the oracle only).
 -/
 set_option linter.unusedSimpArgs false
 set_option linter.unusedVariables false
@@ -551,6 +552,72 @@ theorem refl_sub_agrees (n : Nat) (hn : 0 < n) (d : Dep) (hd : d = .f ∨ d = .p
     simp only [spec, e1, hQ2, ok_bind, binop, PBox.sub, hneg]
     exact add_const_left n (swapPO d) hd' a b hab _ hwn
 
+/-! ## ○ a Python number with a p-box-like operand: sum and difference -/
+
+/-- `pbox_number_ops(P, c, add)` on well-formed bounds: every step shifted by `c` -/
+theorem numberOp_add_wf (n : Nat) (P : PB) (hP : WF n P) (c : Rat) :
+    numberOp n (· + ·) P c = .ok ⟨P.left.map (c + ·), P.right.map (c + ·)⟩ := by
+  have hw := wf_shift n P hP c c (le_refl c)
+  unfold numberOp
+  rw [map_add_comm, map_add_comm, sortR_of_sorted _ hw.lsorted, sortR_of_sorted _ hw.rsorted]
+  exact mk_wf n true _ _ hw
+
+/-- **number ± X, X ± number** for a p-box-like `X` under Frechet / perfect / opposite: the number route
+(`pbox_number_ops`, which ignores the dependency) gives the p-box of the converted-first expression -/
+theorem num_add_sub_agrees (n : Nat) (hn : 0 < n) (d : Dep) (hd : d = .f ∨ d = .p ∨ d = .o) (c : Rat)
+    (r : Opd) (hr : isHigh r = true) (hv : ValidOpd n r) :
+    (∃ z, evalOp n d .add (.num c) r = .ok (.pbox z) ∧ spec n d .add (.num c) r = .ok z) ∧
+    (∃ z, evalOp n d .add r (.num c) = .ok (.pbox z) ∧ spec n d .add r (.num c) = .ok z) ∧
+    (∃ z, evalOp n d .sub (.num c) r = .ok (.pbox z) ∧ spec n d .sub (.num c) r = .ok z) ∧
+    (∃ z, evalOp n d .sub r (.num c) = .ok (.pbox z) ∧ spec n d .sub r (.num c) = .ok z) := by
+  obtain ⟨Q, hQ1, hQ2, hw⟩ := convert_high_wf n r hr hv
+  obtain ⟨hneg, hwn⟩ := neg_wf n Q hw
+  have hd' : swapPO d = .f ∨ swapPO d = .p ∨ swapPO d = .o := by
+    rcases hd with h | h | h <;> subst h <;> simp [swapPO]
+  have e1 : convert n (.num c) = .ok (ofIvl n c c) := ivlToPbox_eq n c c hn (le_refl c)
+  have refl_ : ∀ o, evalOp n d o (.num c) r = (convertPbox n r >>= fun p => reflected n o d (.num c) p >>= fun t => pure (.pbox t)) := by
+    intro o; cases r <;> first | rfl | (simp [isHigh] at hr)
+  have fwd_ : ∀ o, evalOp n d o r (.num c) = (convertPbox n r >>= fun p => method n o d p (.num c) >>= fun t => pure (.pbox t)) := by
+    intro o; cases r <;> first | rfl | (simp [isHigh] at hr)
+  refine ⟨⟨⟨Q.left.map (c + ·), Q.right.map (c + ·)⟩, ?_, ?_⟩, ⟨⟨Q.left.map (c + ·), Q.right.map (c + ·)⟩, ?_, ?_⟩,
+    ⟨⟨((Q.right.map (- ·)).reverse).map (c + ·), ((Q.left.map (- ·)).reverse).map (c + ·)⟩, ?_, ?_⟩,
+    ⟨⟨Q.left.map (-c + ·), Q.right.map (-c + ·)⟩, ?_, ?_⟩⟩
+  · rw [refl_, hQ1, ok_bind]; simp only [reflected, pboxAdd, numberOp_add_wf n Q hw c, ok_bind]; rfl
+  · simp only [spec, e1, hQ2, ok_bind, binop]; exact add_const_left n d hd c c (le_refl c) Q hw
+  · rw [fwd_, hQ1, ok_bind]; simp only [method, pboxAdd, numberOp_add_wf n Q hw c, ok_bind]; rfl
+  · simp only [spec, e1, hQ2, ok_bind, binop]; exact add_const_right n d hd c c (le_refl c) Q hw
+  · rw [refl_, hQ1, ok_bind]; simp only [reflected, hneg, ok_bind, pboxAdd, numberOp_add_wf n _ hwn c]; rfl
+  · simp only [spec, e1, hQ2, ok_bind, binop, PBox.sub, hneg]; exact add_const_left n (swapPO d) hd' c c (le_refl c) _ hwn
+  · rw [fwd_, hQ1, ok_bind]; simp only [method, pboxSub, negOpd, ok_bind, pboxAdd, numberOp_add_wf n Q hw (-c)]; rfl
+  · simp only [spec, e1, hQ2, ok_bind, binop, PBox.sub, neg_ofIvl n c c hn (le_refl c)]
+    exact add_const_right n (swapPO d) hd' (-c) (-c) (le_refl _) Q hw
+
+
+/-! ## ○ interval + distribution under independence as well -/
+
+/-- `Distribution + Interval` / `Interval + Distribution` as executed (the distribution's p-box is the
+left operand of `add`), **every** dependency code: the quantile list shifted by the interval -/
+theorem ivl_plus_dist_expr_any (q : List Rat) (hq : q.Pairwise (· ≤ ·)) (hn : 0 < q.length) (a b : Rat) (hab : a ≤ b)
+    (dep : Dep) (hd : dep ≠ .unknown) :
+    evalOp q.length dep .add (.ivl a b) (.dist q) = .ok (.pbox ⟨q.map (a + ·), q.map (b + ·)⟩) ∧
+    evalOp q.length dep .add (.dist q) (.ivl a b) = .ok (.pbox ⟨q.map (a + ·), q.map (b + ·)⟩) := by
+  have key : add q.length dep (ofDist q) (ofIvl q.length a b) = .ok ⟨q.map (a + ·), q.map (b + ·)⟩ := by
+    cases dep with
+    | f => exact dist_ivl_shift q hq a b hab .f (Or.inl rfl)
+    | p => exact dist_ivl_shift q hq a b hab .p (Or.inr (Or.inl rfl))
+    | o => exact dist_ivl_shift q hq a b hab .o (Or.inr (Or.inr rfl))
+    | i => exact add_const_right_i (ofDist q) hn (wf_ofDist q hq) a b hab
+    | unknown => exact absurd rfl hd
+  constructor
+  · simp only [evalOp, opdArith, convertPbox, ok_bind, reflected, pboxAdd]
+    rw [ivlToPbox_eq _ a b hn hab, ok_bind, key]; rfl
+  · simp only [evalOp, opdArith, convertPbox, ok_bind, method, pboxAdd]
+    rw [ivlToPbox_eq _ a b hn hab, ok_bind, key]; rfl
+
+example : (evalOp 3 .i .add (.ivl 1 2) (.dist [0, 5, 7])) = .ok (.pbox ⟨[1, 6, 8], [2, 7, 9]⟩) := by
+  have := (ivl_plus_dist_expr_any [0, 5, 7] (by decide) (by decide) 1 2 (by norm_num) .i (by decide)).1
+  norm_num at this; exact this
+
 /-! ## the full statement and what is proved of it -/
 
 /-- divisor operands that the property covers: no zero inside -/
@@ -571,9 +638,10 @@ def C07RouteStatement : Prop :=
 
 /-- what is proved of `C07RouteStatement`: (1) left operand p-box-like and right operand an interval or
 p-box-like — all operations, all dependencies (conditional on the converted-first expression
-answering); (2) `Interval + X`, `Interval - X` for p-box-like `X` under f / p / o.
-Missing: `Interval * X`, `Interval / X`, number operands on either side, dependency `i` in (2), and
-totality (`spec` answers on all valid operands). -/
+answering); (2) `Interval + X`, `Interval - X` for p-box-like `X` under f / p / o; (3) `c + X`, `X + c`,
+`c - X`, `X - c` for a Python number `c` under f / p / o.
+Missing: `Interval * X`, `Interval / X`, products / quotients with a number, dependency `i` in (2), (3),
+and totality (`spec` answers on all valid operands) in (1). -/
 theorem route_agrees_partial :
     (∀ (n : Nat) (_ : 0 < n) (d : Dep) (o : Op) (l r : Opd), isHigh l = true →
       (match r with
@@ -583,13 +651,34 @@ theorem route_agrees_partial :
       ∀ z, spec n d o l r = .ok z → evalOp n d o l r = .ok (.pbox z)) ∧
     (∀ (n : Nat) (_ : 0 < n) (d : Dep) (_ : d = .f ∨ d = .p ∨ d = .o) (o : Op) (_ : o = .add ∨ o = .sub)
       (a b : Rat) (_ : a ≤ b) (r : Opd), isHigh r = true → ValidOpd n r →
-      ∃ z, evalOp n d o (.ivl a b) r = .ok (.pbox z) ∧ spec n d o (.ivl a b) r = .ok z) := by
-  refine ⟨fun n hn d o l r hl hr z h => fwd_agrees n hn d o l r hl hr z h, ?_⟩
-  intro n hn d hd o ho a b hab r hr hv
-  rcases ho with h | h <;> subst h
-  · obtain ⟨Q, _, h1, h2⟩ := refl_add_agrees n hn d hd a b hab r hr hv
-    exact ⟨_, h1, h2⟩
-  · exact refl_sub_agrees n hn d hd a b hab r hr hv
+      ∃ z, evalOp n d o (.ivl a b) r = .ok (.pbox z) ∧ spec n d o (.ivl a b) r = .ok z) ∧
+    (∀ (n : Nat) (_ : 0 < n) (d : Dep) (_ : d = .f ∨ d = .p ∨ d = .o) (o : Op) (_ : o = .add ∨ o = .sub)
+      (c : Rat) (r : Opd), isHigh r = true → ValidOpd n r →
+      (∃ z, evalOp n d o (.num c) r = .ok (.pbox z) ∧ spec n d o (.num c) r = .ok z) ∧
+      (∃ z, evalOp n d o r (.num c) = .ok (.pbox z) ∧ spec n d o r (.num c) = .ok z)) := by
+  refine ⟨fun n hn d o l r hl hr z h => fwd_agrees n hn d o l r hl hr z h, ?_, ?_⟩
+  · intro n hn d hd o ho a b hab r hr hv
+    rcases ho with h | h <;> subst h
+    · obtain ⟨Q, _, h1, h2⟩ := refl_add_agrees n hn d hd a b hab r hr hv
+      exact ⟨_, h1, h2⟩
+    · exact refl_sub_agrees n hn d hd a b hab r hr hv
+  · intro n hn d hd o ho c r hr hv
+    obtain ⟨h1, h2, h3, h4⟩ := num_add_sub_agrees n hn d hd c r hr hv
+    rcases ho with h | h <;> subst h
+    · exact ⟨h1, h2⟩
+    · exact ⟨h3, h4⟩
+
+/-- non-vacuity of `fwd_agrees`: the converted-first expression answers on a concrete mixed pair -/
+example : spec 2 .o .add (.dist [0, 5]) (.ivl 1 2) = .ok ⟨[1, 6], [2, 7]⟩ := by
+  have e := dist_ivl_shift [0, 5] (by decide) 1 2 (by norm_num) .o (Or.inr (Or.inr rfl))
+  have e1 : convert 2 (.ivl 1 2) = .ok (ofIvl 2 1 2) := ivlToPbox_eq 2 1 2 (by decide) (by norm_num)
+  simp only [spec, e1, ok_bind, binop, convert, convertPbox]
+  norm_num at e; exact e
+
+example : ∃ z, evalOp 2 .f .sub (.num 3) (.pbox ⟨[0, 1], [1, 4]⟩) = .ok (.pbox z) ∧
+    spec 2 .f .sub (.num 3) (.pbox ⟨[0, 1], [1, 4]⟩) = .ok z :=
+  (num_add_sub_agrees 2 (by decide) .f (Or.inl rfl) 3 (.pbox ⟨[0, 1], [1, 4]⟩) rfl
+    ⟨rfl, rfl, by decide, by decide, by repeat constructor⟩).2.2.1
 
 /-- non-vacuity: a concrete mixed expression meets the hypotheses -/
 example : ∃ z, evalOp 2 .p .sub (.ivl 1 2) (.dist [0, 5]) = .ok (.pbox z) ∧
